@@ -507,6 +507,41 @@ def iter_shard(shard, stats):
 _COND = ("EQ", "NE", "CS", "CC", "MI", "PL", "VS", "VC", "HI", "LS", "GE", "LT", "GT", "LE", "AL", "NV")
 
 
+def skeleton(e):
+    """Operand-independent shape of an expression: registers -> r, constants -> i, operators kept."""
+    if e.is_id():
+        return "r"
+    if e.is_int():
+        return "i"
+    if e.is_loc():
+        return "l"
+    if e.is_mem():
+        return "@[%s]" % skeleton(e.ptr)
+    if e.is_op():
+        if len(e.args) == 1:
+            return "%s(%s)" % (e.op, skeleton(e.args[0]))
+        return "(" + e.op.join(skeleton(a) for a in e.args) + ")"
+    if e.is_slice():
+        return skeleton(e.arg) + "[:]"
+    if e.is_cond():
+        return "?"
+    if e.is_compose():
+        return "{" + ",".join(skeleton(a) for a in e.args) + "}"
+    return "?"
+
+
+def note_best(best, v, key):
+    """Keep, per signature, the smallest witness, the number of cases and (folded signatures) the mnemonics."""
+    cur = best.get(v["sig"])
+    if cur is None:
+        best[v["sig"]] = cur = [key, v, 0, set()]
+    elif key < cur[0]:
+        cur[0], cur[1] = key, v
+    cur[2] += 1
+    if v.get("mnemo"):
+        cur[3].add(v["mnemo"])
+
+
 def base_mnemonic(name, instr_name):
     """Mnemonic without the ARM condition suffix (keeps signatures few): a trailing condition code is dropped
     when the remainder is itself a mnemonic of the architecture."""
@@ -547,22 +582,28 @@ def fold(ctx, results, bounds, extra_bounds=None, nontrivial=None):
             distinct_cube[name] = distinct_cube.get(name, 0) + stats.get("distinct", 0)
         else:
             keysets.setdefault(name, set()).update(keys)
-        for sig, (k, v, n) in bst.items():
+        for sig, ent in bst.items():
+            k, v, n = ent[0], ent[1], ent[2]
+            names = set(ent[3]) if len(ent) > 3 else set()     # mnemonics of a folded ("*") signature
             cur = best.get(sig)
             if cur is None:
-                best[sig] = [tuple(k) if not isinstance(k, tuple) else k, v, n]
+                best[sig] = [tuple(k) if not isinstance(k, tuple) else k, v, n, names]
             else:
                 cur[2] += n
+                cur[3] |= names
                 if k < cur[0]:
                     cur[0], cur[1] = k, v
         if sample is not None and len(samples) < 64:
             samples.append(sample)
     total_cases = 0
     for sig in sorted(best):
-        k, v, n = best[sig]
+        k, v, n, names = best[sig]
         total_cases += n
         v = dict(v)
+        v.pop("mnemo", None)
         v["what"] = v["what"] + "  [%d element(s) with this signature]" % n
+        if names:
+            v["what"] += "  mnemonics: " + ", ".join(sorted(names))
         ctx.add_violations([v])
     distinct = 0
     for name, pt in per_target.items():
